@@ -8,7 +8,7 @@ ScenNext ==
   \/ OpenOk /\ Tag([op |-> "openok", h |-> NewHandle])
   \/ OpenFail(TRUE) /\ Tag([op |-> "openfail", h |-> 0])
   \/ \E h \in 1..(counter + 1) : Use(h) /\ Tag([op |-> "use", h |-> h])
-  \/ \E h \in 1..(counter + 1) : Close(h) /\ Tag([op |-> "close", h |-> h])
+  \/ \E h \in 1..(counter + 1) : Close(h, FALSE) /\ Tag([op |-> "close", h |-> h])
   \/ ConnEnd /\ nops >= 2 /\ UNCHANGED sched
   \/ Sweep /\ UNCHANGED sched
 ScenSpec == ScenInit /\ [][ScenNext]_<<vars, sched>>
